@@ -1,27 +1,6 @@
-<<<<<<< HEAD
 #pragma once
 #include <osmocom/gsm/gsm_utils.h>
 #define GSM_TDMA_SUPERFRAME	(26 * 51)
 #define GSM_TDMA_HYPERFRAME	(2048 * GSM_TDMA_SUPERFRAME)
-=======
-/* shim: TDMA frame number helpers and burst lengths of current libosmocore's gsm0502.h */
-#pragma once
-#include <stdint.h>
-
-/* Table 5.2.3 / clause 4.3.3: superframe = 26 * 51 frames, hyperframe = 2048 superframes */
-#define GSM_TDMA_SUPERFRAME	(26 * 51)
-#define GSM_TDMA_HYPERFRAME	(2048 * GSM_TDMA_SUPERFRAME)
-
-#define GSM_TDMA_FN_SUM(a, b) \
-	((a + b) % GSM_TDMA_HYPERFRAME)
-#define GSM_TDMA_FN_SUB(a, b) \
-	((a + GSM_TDMA_HYPERFRAME - b) % GSM_TDMA_HYPERFRAME)
-#define GSM_TDMA_FN_INC(fn) \
-	((fn) = GSM_TDMA_FN_SUM((fn), 1))
-#define GSM_TDMA_FN_DEC(fn) \
-	((fn) = GSM_TDMA_FN_SUB((fn), 1))
-
-/* 5.2.3 Normal burst: 148 symbols (GMSK: 1 bit, 8-PSK: 3 bits per symbol) */
->>>>>>> 290d82d36de733d6cf0d7509f16f5a44d8446d2e
 #define GSM_NBITS_NB_GMSK_BURST	148
 #define GSM_NBITS_NB_8PSK_BURST	(GSM_NBITS_NB_GMSK_BURST * 3)
